@@ -12,5 +12,5 @@ if s.count(old)<1: print("OLD NOT FOUND"); sys.exit(1)
 open(p,'w').write(s.replace(old,new,1))
 PY
 (cd $S/repo && GOFLAGS= go build ./... 2>&1 | head -5)
-/verif/bin/sonicsa -repo $S/repo -verif $S/verif -prop "$PROPS" 2>&1 | grep -v "^KNOWN-FINDING\|^NOTE" | grep -i "violation:\|tier=\|ERROR\|UNDEC" | cut -c1-400 | sed "s#$S/##g"
+/verif/bin/sonicsa -repo $S/repo -verif $S/verif -prop "$PROPS" -tier ${TIER:-quick} 2>&1 | grep -v "^KNOWN-FINDING\|^NOTE" | grep -i "violation:\|tier=\|ERROR\|UNDEC" | cut -c1-400 | sed "s#$S/##g"
 rm -rf $S
